@@ -41,6 +41,63 @@ CLAIMS = {
           "prologue).",
   "note": "'delivered exactly once without crashes' follows on paper from these steps, it is not checked end to end; 3 slots, 2 jobs, reports <= 5..8 bytes.",
  },
+ "C07": {
+  "design_ref": "DESIGN.md 4 C07",
+  "text": "Bounded model checking of the real qmail.c (close returns \"\" iff no failure was flagged and qmail-queue exited 0, and then it received exactly the message "
+          "and F..NUL (T..NUL)* NUL; every wait status 0..65535 mapped to its D/Z class; after a flagged failure the envelope is never completed), received.c "
+          "(only safe characters from the five peer-controlled strings), smtp_data (250 iff queued; hops >= 100 -> 554, size -> 552, D -> 554, Z -> 451), blast's hop "
+          "counter vs the stored message, and the WHOLE main() of qmail-qmqpd and qmail-qmtpd on every input of up to 10 bytes (12/13 thorough) plus templates "
+          "with symbolic framing bytes around concrete fillers (addresses of 999/1000 bytes, recipient framing, sender, body) against a reference netstring parser.",
+  "note": "fork/pipe/exec/wait stubbed (the queue program is represented by its C01 contract); hop counts 98..101 are not executed (counter proved equal to the "
+          "reference count for counts 0..1, smtp_data proved for every symbolic count); exit-82 custom text assumed to start with D or Z as qmail-queue(8) documents; "
+          "several packages per QMTP connection and write errors towards the client outside.",
+ },
+ "C08": {
+  "design_ref": "DESIGN.md 4 C08",
+  "text": "Bounded model checking of the real SMTP handlers (helo/ehlo/rset/mail/rcpt/data) with addrparse, bmfcheck, addrallowed for every sequence of 3 commands "
+          "(4 thorough) with arguments up to 5 bytes, RELAYCLIENT unset or set, rcpthosts absent or 2 entries, one badmailfrom entry, against a ghost transaction kept "
+          "from the replies: submission only after MAIL + accepted RCPT + DATA with exactly that envelope, resets as stated, RCPT 250 iff policy; addrparse vs the "
+          "documented forms (<= 7 bytes + localiphost template); rcpthosts() vs a reference suffix matcher incl. the cdb list; commands() line handling; constmap lemma.",
+  "note": "rcpthosts/constmap cut to reference functions inside the sequence harness, their equivalence to the real code proved by the lemma obligations at small "
+          "sizes; ipme_is stubbed; morercpthosts.cdb file format is C11's cdb reader.",
+ },
+ "C10": {
+  "design_ref": "DESIGN.md 4 C10",
+  "text": "Bounded model checking of qmail-send.c rewrite() against a model of qmail-send(8)/addresses(5) for every recipient of up to 6 bytes (9 thorough) with "
+          "symbolic locals (<=2x3), virtualdomains (<=2 entries, keys <=4, tags <=2), percenthack, envnoathost; senderadd() VERP expansion; regetcontrols() over "
+          "two HUPs; todo_do() writes each recipient once, in order, to the channel rewrite() chose; lemma: real constmap_init+constmap == case-insensitive linear search.",
+  "note": "constmap() cut under the lemma (proved for up to 3 entries x 3 bytes); control-file parsing and getcontrols() not reached; recorded judgements: '@' inside a "
+          "percent-hack fqdn not compared, envnoathost without '@'.",
+ },
+ "C11": {
+  "design_ref": "DESIGN.md 4 C11",
+  "text": "Bounded model checking of cdb_hash vs cdbmake hash (keys <= 6 bytes), pack/unpack for all 2^32 values, cdb_seek over an abstract file built from the cdb "
+          "format specification (0..2 records, duplicates, same bucket) and over arbitrary corrupt/truncated images, qmail-newu main() on 1-2 assign lines, "
+          "nughde_get() (exact entry, longest wildcard ending in a break character, catch-all; any cdb error -> QLX_CDB), spawn() child branch (setgroups, setgid, "
+          "setuid in that order, uid 0 refused before execv, exact argv), qmail-getpw userext rules over a 2-entry passwd table.",
+  "note": "cdb writer decided only for the empty table (count[h&255] stays a symbolic index; stated in evidence); real NSS and group databases outside; local part "
+          "<= 3 bytes quick, 5 thorough.",
+ },
+ "C17": {
+  "design_ref": "DESIGN.md 4 C17",
+  "text": "Bounded model checking: addrparse(addrmangle(local@host)) == local@host for every local part of up to 6 bytes (12 thorough) with the real qmail-remote.c and "
+          "qmail-smtpd.c in one query; quote2 -> token822_parse -> addrlist -> unquote round trip (local part <= 3 bytes); quote2 output vs an RFC 822 reference reader "
+          "(<= 7 bytes, 12 thorough); 20 syntactic address-list forms through token822_addrlist + rwgeneric give exactly the mailboxes known by construction, and their "
+          "unparse output re-read by the reference reader gives the same tokens; doheaderfield never keeps Bcc/Resent-Bcc/Return-Path.",
+  "note": "weakest string bound of the suite: token822_parse on symbolic text closes only to 3-4 bytes, so the 'rewritten header parses again' clause is decided "
+          "against an RFC 822 reference reader, not by a second real parse; -a/-h/-H/-f option handling and folding at LINELEN not reached.",
+ },
+ "C20": {
+  "design_ref": "DESIGN.md 4 C20",
+  "text": "Bounded, per-kernel model checking with cbmc's bounds/pointer/signed-overflow/shift checks on: layer-0 lemmas on the REAL substdo.c, substdi.c, "
+          "substdio_copy.c, getln.c/getln2.c from arbitrary valid buffer states (sizes 1..8) with short writes/reads, EINTR and errors - exactly the contracts the "
+          "ideal stream models implement; allocator arithmetic (GEN_ALLOC_readyplus instances, stralloc_catb/copyb/append, quote doit) for ALL 32-bit len/a/n; "
+          "put/bput with any 64-bit length; netstring length parsers; dns.c record walkers from symbolic walker states; fmt/scan/date ranges; hfield, headerbody, "
+          "commands, control, constmap, token822_parse, cdb_seek on corrupt files, spawner report routines; plus every string-level harness of C03-C19 runs with the "
+          "same checks.",
+  "note": "NOT a whole-suite claim: inputs longer than each kernel's bound (<= 3..12 bytes), 'thousands of tokens', deep nesting and true 2^31-byte lines are not "
+          "executed - only the arithmetic that guards them is proved for all 32-bit values; use-after-free across long sessions and programs not listed are outside.",
+ },
  "C09": {
   "design_ref": "DESIGN.md 4 C09",
   "text": "Bounded model checking of qmail-remote.c smtpcode() against a reference RFC 5321 reply reader on fully symbolic server streams (<=12 bytes quick), "
